@@ -55,7 +55,7 @@ def pin_patterns(ins, outs):
 
 
 def record(before_c, after_fn, lib, seq_kinds, what, resolve=False):
-    rec = dict(what=what, lib=lib, raised=False, resolve=resolve)
+    rec = dict(pid='C10', what=what, lib=lib, raised=False, resolve=resolve, onlyforks=False)
     rec['before'] = nets.struct_t(before_c, seq_kinds)
     try:
         after_c = after_fn(before_c)
